@@ -33,6 +33,15 @@ class FeatureProduction(Production):
         """The merged features of the production rules"""
         return self._features
 
+    def __eq__(self, other):
+        if isinstance(other, FeatureProduction):
+            # Same head and body, but also the same features
+            return super().__eq__(other) and repr(self) == repr(other)
+        return super().__eq__(other)
+
+    def __hash__(self):
+        return super().__hash__()
+
     def __repr__(self):
         res = [self.head.to_text()]
         cond_head = str(self._features.get_feature_by_path(["head"]))
